@@ -40,10 +40,11 @@ Theorem flatten_is_lookup : forall st f e, wfb f st (Some e) = true ->
 Proof. intros st f e W. apply flatten_spec. apply wfb_wft. exact W. Qed.
 Print Assumptions flatten_is_lookup.
 
-(* the order in which entries are serialised (key_entry) is git's base_name_compare,
-   which crates/objects transcribes (cmp_with_suffix) *)
-Theorem canonical_order_is_gits : forall a b, plain (fst a) -> plain (fst b) -> py_tree_cmp a b = rs_tree_cmp a b.
-Proof. exact tree_order_py_eq_rs_lemma. Qed.
+(* the order in which entries are serialised (key_entry) is git's base_name_compare
+   (common prefix, then one byte with "/" standing in for the end of a directory
+   name) on names without NUL and "/", which is every name git itself allows *)
+Theorem canonical_order_is_gits : forall a b, plain (fst a) -> plain (fst b) -> py_tree_cmp a b = rs_tree_cmp_one_byte a b.
+Proof. exact tree_order_one_byte_lemma. Qed.
 Print Assumptions canonical_order_is_gits.
 
 (* the hypotheses are satisfiable by a tree with a file/directory ordering conflict *)
